@@ -515,16 +515,16 @@ impl DocSet for DenseThenArr {
     }
 }
 
-/// BufferedUnionScorer over A = [0, 66) (score 1) and B = <= 2 symbolic ids in [lo_b, 9000)
+/// BufferedUnionScorer over A = [0, 66) (score 1) and B = 2 symbolic ids in [lo_b, 9000)
 /// (score 2), SumCombiner. Program: one `fill_buffer` (hands out 0..63, leaves the scorer on 64),
 /// then four `advance` calls, which cross into the window(s) of B's ids: 65, b0, b1, end, end.
 /// Every id and every score read is compared with the sorted union.
 fn buffered_union_fill_then_advance(lo_b: DocId) {
     let a = DenseThenArr { dense_end: 66, pos: 0, arr: Arr::empty() };
-    let barr = Arr::any(9000, 2);
-    if barr.len > 0 {
-        kani::assume(barr.docs[0] >= lo_b);
-    }
+    // concrete length: a symbolic length keeps every refill loop unwinding to its bound
+    let bdocs: [DocId; N] = kani::any();
+    kani::assume(bdocs[0] >= lo_b && bdocs[0] < bdocs[1] && bdocs[1] < 9000);
+    let barr = Arr { docs: bdocs, len: 2, cur: 0 };
     let b = DenseThenArr { dense_end: 0, pos: 0, arr: barr };
     let in_a = |d: DocId| d < 66;
     let score_of = |d: DocId| (if in_a(d) { 1.0 } else { 0.0 }) + (if barr.contains(d) { 2.0 } else { 0.0 });
@@ -564,8 +564,52 @@ fn buffered_union_fill_then_advance(lo_b: DocId) {
         }
         j += 1;
     }
-    kani::cover!(barr.len == 2 && barr.docs[0] - 4096 < 60, "B starts a second window that reuses drained slots");
+    kani::cover!(barr.docs[0] >= 4096 && barr.docs[1] - barr.docs[0] < 60, "B's ids share a later window that reuses drained slots");
     std::mem::forget(ds);
+}
+
+/// One `fill_buffer` call drains a union whose ids span two windows of the sliding bitset:
+/// A and B hold two symbolic ids each, all < 8192. The call must hand out exactly the sorted
+/// union and leave the scorer exhausted.
+fn buffered_union_one_fill<C: ScoreCombiner + Default>() {
+    let da: [DocId; N] = kani::any();
+    let db: [DocId; N] = kani::any();
+    kani::assume(da[0] < da[1] && da[1] < 8192 && db[0] < db[1] && db[1] < 8192);
+    let a = Arr { docs: da, len: 2, cur: 0 };
+    let b = Arr { docs: db, len: 2, cur: 0 };
+    let ls = [a, b, Arr::empty()];
+    let mut ds: BufferedUnionScorer<ConstScorer<Arr>, C> = BufferedUnionScorer::build(vec![cs(a, 1.0), cs(b, 2.0)], C::default, 8192);
+    let first = next_where(&ls, 0, |_| true);
+    assert_eq!(ds.doc(), first);
+    let mut buf = [0u32; COLLECT_BLOCK_BUFFER_LEN];
+    let n = ds.fill_buffer(&mut buf);
+    let total = count_where(&ls, 0, |_| true) as usize;
+    assert_eq!(n, total);
+    let mut t = 0;
+    let mut i = 0;
+    while i < 4 {
+        if i < n {
+            let e = next_where(&ls, t, |_| true);
+            assert_eq!(buf[i], e);
+            t = e + 1;
+        }
+        i += 1;
+    }
+    assert_eq!(ds.doc(), TERMINATED);
+    kani::cover!(n == 4 && buf[1] + 4096 <= buf[2], "two windows, two ids each");
+    std::mem::forget(ds);
+}
+
+#[kani::proof]
+#[kani::unwind(5)]
+fn c13_buffered_union_one_fill_two_windows() {
+    buffered_union_one_fill::<DoNothingCombiner>();
+}
+
+#[kani::proof]
+#[kani::unwind(5)]
+fn c13_buffered_union_one_fill_two_windows_sum() {
+    buffered_union_one_fill::<SumCombiner>();
 }
 
 #[kani::proof]
